@@ -133,6 +133,129 @@ def process_level(ctx, rng, viol):
     return stats
 
 
+def fs_semantics_level(ctx, rng, viol):
+    """The symlink-free file-system semantics of `C15.preserves` (Lemmas/PathsSem.lean: Tree, resolveStrict) against
+    the real file system: generated directory trees (every directory holds a uniquely named marker, at most one plain
+    file `f`), every directory as cwd, generated paths with `.`, `..`, doubled and trailing slashes, missing names and
+    files used as directories.  Compared: resolves or not, and which node.  Also the monitor of the clause itself on
+    the implementation: whenever `p` resolves, `normpath p` (the real function) resolves to the same node."""
+    import tempfile, shutil
+    thorough = ctx["tier"] == "thorough"
+    stats = dict(trees=0, requests=0, resolved=0, preserved_checked=0)
+    for _ in range(12 if thorough else 3):
+        root = os.path.realpath(tempfile.mkdtemp(prefix="redo-verif-fs-"))
+        try:
+            dirs, files, mid = [""], [], [0]
+            def grow(d, depth):
+                for nm in rng.sample(["a", "b", "c", "a.b", "é"], rng.randint(0, 3)):
+                    sub = d + "/" + nm
+                    dirs.append(sub)
+                    if depth < 3 and rng.random() < 0.7:
+                        grow(sub, depth + 1)
+            grow("", 0)
+            alld, allf = [], []
+            for d in dirs:
+                os.makedirs(root + d, exist_ok=True)
+                mid[0] += 1
+                m = d + "/m%d" % mid[0]
+                os.makedirs(root + m)
+                alld += [d, m] if d else [m]
+                if rng.random() < 0.5:
+                    open(root + d + "/f", "w").close()
+                    allf.append(d + "/f")
+            marker = {}
+            for d in [""] + [x for x in alld if x]:
+                marker[os.path.realpath(root + d)] = sorted(os.listdir(root + d))
+            reqs, meta = [], []
+            comps_pool = ["a", "b", "c", "a.b", "é", ".", "..", "f", "", "zz", "m1", "m2"]
+            for cwd in dirs:
+                for _ in range(40 if thorough else 25):
+                    k = rng.randint(1, 6)
+                    # a guided walk: mostly existing names from where the walk currently is, with noise
+                    absolute = rng.random() < 0.3
+                    pos = [] if absolute else [c for c in cwd.split("/") if c]
+                    parts = []
+                    for _i in range(k):
+                        q = rng.random()
+                        here = root + "/" + "/".join(pos)
+                        kids = sorted(os.listdir(here)) if os.path.isdir(here) else []
+                        if q < 0.55 and kids:
+                            c = rng.choice(kids)
+                            pos.append(c)
+                        elif q < 0.72:
+                            c = ".."
+                            if pos:
+                                pos.pop()
+                        elif q < 0.82:
+                            c = "."
+                        elif q < 0.88:
+                            c = ""
+                        else:
+                            c = rng.choice(comps_pool)
+                            pos.append(c)
+                        parts.append(c)
+                    pth = "/".join(parts)
+                    if absolute:
+                        pth = "/" + pth
+                    if rng.random() < 0.2:
+                        pth += "/"
+                    if not pth:
+                        continue
+                    reqs.append("resolve %s %s %s %s" % (",".join(hx(x) for x in alld) or "-", ",".join(hx(x) for x in allf) or "-", hx(cwd or "/"), hx(pth)))
+                    meta.append((cwd, pth))
+            model = run_lines(MODEL, reqs)
+            normed = run_lines(RH, ["normpath " + hx(pth) for _, pth in meta])
+
+            def real_resolve(cwd, pth):
+                # absolute paths of the model are relative to the scratch root
+                full = (root + pth) if pth.startswith("/") else os.path.join(root + cwd, pth)
+                try:
+                    st = os.stat(full)
+                except (FileNotFoundError, NotADirectoryError):
+                    return "none"
+                rp = os.path.realpath(full)
+                if not (rp == root or rp.startswith(root + "/")):
+                    return "escaped"       # `..` above the scratch root: not comparable (the model's root is `/`)
+                import stat as st_
+                if st_.S_ISDIR(st.st_mode):
+                    return "dir:" + ",".join(hx(x) for x in sorted(os.listdir(rp)))
+                return "file:" + ",".join(hx(x) for x in sorted(os.listdir(os.path.dirname(rp))))
+            for (cwd, pth), mres, np_ in zip(meta, model, normed):
+                # `..` at the model's root stays at the root; below a scratch directory it would leave it: skip paths
+                # that climb above the root lexically
+                depth, esc = (0 if pth.startswith("/") else len([c for c in cwd.split("/") if c])), False
+                for c in pth.split("/"):
+                    if c == "..":
+                        depth -= 1
+                        if depth < 0:
+                            esc = True
+                            break
+                    elif c not in ("", "."):
+                        depth += 1
+                if esc:
+                    continue
+                stats["requests"] += 1
+                real = real_resolve(cwd, pth)
+                if real != "none":
+                    stats["resolved"] += 1
+                if real != mres:
+                    p = write_replay("C15", "fs-sem", dict(kind="model-vs-os", layer="PathsSem", cwd=cwd or "/", path=pth, model=mres, real=real, dirs=alld, files=allf))
+                    viol.append(Violation("C15", p, "file-system semantics of the model differs from the real one for %r from %r: model %s, real %s" % (pth, cwd or "/", mres[:60], real[:60]), no_input=True))
+                    return stats
+                if real != "none":
+                    cleaned = unhx(np_).decode("utf-8", "replace")
+                    again = real_resolve(cwd, cleaned)
+                    stats["preserved_checked"] += 1
+                    if again != real:
+                        p = write_replay("C15", "preserves", dict(kind="impl-monitor", clause="cleaning never changes which file a symlink-free path names", cwd=cwd or "/", path=pth, cleaned=cleaned, before=real, after=again))
+                        viol.append(Violation("C15", p, "normpath(%r) = %r names a different file (from %r): %s vs %s" % (pth, cleaned, cwd or "/", real[:50], again[:50])))
+                        return stats
+            stats["trees"] += 1
+        finally:
+            shutil.rmtree(root, ignore_errors=True)
+    return stats
+
+
 def run(ctx):
     rng = random.Random(ctx["seed"])
     thorough = ctx["tier"] == "thorough"
@@ -192,11 +315,12 @@ def run(ctx):
         viol.append(Violation("C15", p, "model and implementation disagree on %d path requests (first: %s)" % (len(diffs), l), no_input=True))
     sym = symlink_level(ctx, rng, viol) if not viol else {}
     prc = process_level(ctx, rng, viol) if not viol else {}
+    fss = fs_semantics_level(ctx, random.Random(ctx["seed"] * 101 + 15), viol) if not viol else {}
     distinct = len(set(lines))
     nontrivial = len(set(l for l, r in zip(lines, impl) if l.split(" ", 1)[0] != "normpath" or hx(l) != r and unhx(l.split()[1]) != unhx(r)))
     return dict(evaluations=len(lines) + len(again) + len(out), distinct_nontrivial=nontrivial,
                 rule="all strings over {/ . a b} up to length %d, plus seeded random multi-component paths (unicode, spaces, dots); non-trivial = the function changes its input (normpath) or any abspath/relpath request; distinct by request text" % maxlen,
                 samples=[dict(request=lines[i], model=m[i], impl=impl[i]) for i in (5, 300, n_norm + 3, off + 7)],
                 exhaustive=False, disagreements_checked=len(lines), distinct_requests=distinct,
-                distribution=dict(normpath=n_norm, abspath=len(pairs), relpath=len(rel), symlink_tree=sym, two_spellings=prc),
+                distribution=dict(normpath=n_norm, abspath=len(pairs), relpath=len(rel), symlink_tree=sym, two_spellings=prc, fs_semantics=fss),
                 explanation="exhaustive over the small alphabet up to the stated length; random beyond")
